@@ -6,10 +6,12 @@ TIE_EXTRA = {
         "theorems": [
             "gen_legal_iteration_orders_equiv", "gen_merge_add_equiv", "gen_merge_multiply_equiv",
             "gen_contains_contraction_equiv", "gen_pending_compressed_equiv", "gen_target_order_supported_equiv",
-            "gen_merge_assignment_equiv_partial", "gen_tensor_graphs_equiv", "gen_expr_graphs_equiv_partial",
+            "gen_simplify_add_equiv", "gen_merge_assignment_equiv", "gen_tensor_graphs_equiv", "gen_expr_graphs_equiv",
+            "to_iteration_graphs_equiv", "gen_internal_iff_first_graph_bad", "gen_generate_outcomes_typed_partial",
         ],
         "source": "desugar/_to_iteration_graphs.py (+ classes of iteration_graph/iteration_graph.py, Format, TensorLayer.mode)",
-        "model": "coq/model/Graphs.v (legal_iteration_orders, merge_with, merge_assignment, pending_compressed, tensor_graphs, expr_graphs); "
-                 "simplify_add and the top-level to_iteration_graphs loop are tied by the self-check only",
+        "model": "coq/model/Graphs.v (legal_iteration_orders, merge_with, simplify_add, merge_assignment, pending_compressed, "
+                 "tensor_graphs, expr_graphs) and to_iteration_graphs_src (= Graphs.v's to_iteration_graphs with the "
+                 "target_supported filter of commit 601f2d3, proofs/GenGraphs_equiv.v)",
     },
 }
